@@ -5,6 +5,7 @@ package vsync
 
 import (
 	"sync"
+	"sync/atomic"
 
 	"vshim/vsched"
 )
@@ -42,16 +43,20 @@ func (m *Mutex) Unlock() {
 type Locker = sync.Locker
 
 type WaitGroup struct {
-	real sync.WaitGroup
-	n    int
-	used bool
+	real  sync.WaitGroup
+	realN int64 // outstanding count taken outside the explorer (free-running reference runs)
+	n     int
+	used  bool
 }
 
 func (w *WaitGroup) Add(d int) {
-	if !vsched.Active() {
-		if w.used {
+	// A count taken in a free-running run is given back to the real group even if the goroutine that gives it back
+	// outlives that run and finishes while an exploration is active (library code may leave such goroutines behind).
+	if !vsched.Active() || (d < 0 && atomic.LoadInt64(&w.realN) > 0) {
+		if w.used && atomic.LoadInt64(&w.realN) == 0 {
 			return // unwinding an aborted execution
 		}
+		atomic.AddInt64(&w.realN, int64(d))
 		w.real.Add(d)
 		return
 	}
